@@ -27,31 +27,37 @@ Theorem C23_shape_kept : forall E p o o', encryptDeep E o = Ok o' -> get o p = N
 Proof. exact shape_kept. Qed.
 Print Assumptions C23_shape_kept.
 
-(* The writer's dispatch with a key set (writeObjectGeneric / writeFlatObject): whatever is emitted for
-   an indirect object is covered: top-level objects and stream dictionaries leaf by leaf as above,
-   stream data by the stream cipher except xref streams and Crypt-only filter pipelines, and
-   object-stream members by the enclosing object stream.  _partial: it excludes ILazy (undecoded
-   members of the input's object streams), which C23_lazy_in_clear_refuted shows to be written in clear.
-   Full statement: the same without the (forall o, io <> ILazy o) hypothesis. *)
-Theorem C23_emitted_covered_partial : forall strE stmE to_os io e,
-  (forall o, io <> ILazy o) ->
-  write_iobj strE stmE to_os io = Ok e -> covered strE stmE to_os io e.
+(* The writer with a key set (writeIndirectObject + writeObjectGeneric / writeFlatObject): whatever is
+   emitted for an indirect object is covered: top-level objects and stream dictionaries leaf by leaf as
+   above, stream data by the stream cipher except xref streams and Crypt-only filter pipelines,
+   object-stream members by the enclosing object stream, and members of the input's object streams that
+   were never decoded (ILazy) after being decoded (decoded io).  No exclusion. *)
+Theorem C23_emitted_covered : forall strE stmE to_os io e,
+  write_iobj true strE stmE to_os io = Ok e -> covered strE stmE to_os (decoded io) e.
 Proof. exact emitted_covered. Qed.
-Print Assumptions C23_emitted_covered_partial.
+Print Assumptions C23_emitted_covered.
 
 (* streams: everything but xref streams and Crypt-only pipelines — XMP metadata included, since the
    writer has no EncryptMetadata=false mode; an object stream (Type ObjStm, filter Flate) included,
    which covers the members placed in it in clear *)
 Theorem C23_every_stream_enciphered : forall strE stmE to_os d filters raw d' raw',
-  write_iobj strE stmE to_os (IStream d filters raw) = Ok (EmTopStream d' raw') ->
+  write_iobj true strE stmE to_os (IStream d filters raw) = Ok (EmTopStream d' raw') ->
   type_is nXRef d = false -> single_crypt filters = false -> stmE raw = Ok raw'.
 Proof. exact stream_data_enciphered. Qed.
 Print Assumptions C23_every_stream_enciphered.
 
-Theorem C23_lazy_in_clear_refuted : exists o b, o = OArr [OStr b] /\ b <> [] /\
-  forall strE stmE to_os, write_iobj strE stmE to_os (ILazy o) = Ok (EmTop o).
-Proof. exists (OArr [OStr [77%N; 75%N]]), [77%N; 75%N]. split; [reflexivity|]. split; [discriminate|]. intros. apply lazy_in_clear. Qed.
-Print Assumptions C23_lazy_in_clear_refuted.
+(* an undecoded member is emitted as the encryption of the decoded object when a key is set; the verbatim
+   fast path remains only without a key *)
+Theorem C23_lazy_enciphered : forall strE stmE o e,
+  write_iobj true strE stmE false (ILazy o) = Ok e ->
+  exists o', e = EmTop o' /\ encryptDeep strE o = Ok o'.
+Proof. exact lazy_enciphered. Qed.
+Print Assumptions C23_lazy_enciphered.
+
+Theorem C23_lazy_unkeyed_verbatim : forall strE stmE to_os o,
+  write_iobj false strE stmE to_os (ILazy o) = Ok (EmTop o).
+Proof. exact lazy_unkeyed_verbatim. Qed.
+Print Assumptions C23_lazy_unkeyed_verbatim.
 
 (* non-vacuity: a path to a covered leaf, a path to an exempt leaf, a nested non-signature /Contents *)
 Example C23_nonvacuous :
